@@ -209,7 +209,7 @@ def check(ctx):
     cstores = gsa.find(SP, 'store', r'\.(scope|destroy_name|closure_name)$')
     cstores = [e for e in cstores if gsa.needs(SP, e, r'ANN_(SCOPE|DESTROY|CLOSURE)\b') and 'argname' not in e.value]
     clash = [(w_, e) for w_ in cw for e in cstores if gsa.compatible(w_, e)]
-    r3.check(len(cw) >= 1 and not clash and all(re.search('ANN_SCOPE', w_.when()) and re.search('ANN_DESTROY', w_.when()) and re.search('ANN_CLOSURE', w_.when()) for w_ in cw),
+    r3.check(len(cw) >= 1 and not clash and all(any(re.search(a_, w_.when()) for w_ in cw) for a_ in ('ANN_SCOPE', 'ANN_DESTROY', 'ANN_CLOSURE')),
              'scope/destroy/closure on a non-callback: warned and ignored', rel, line_of(cw), 'non-callback branch changed: warnings %s, stores alongside %s' % (show_(cw), show_([e for w_, e in clash])))
     cl_st = gsa.find(SP, 'store', r'\.closure_name$', r'\.argname$')
     r3.check(len(cl_st) >= 1 and all(gsa.excluded_by(SP, e, r'\.get\(ANN_CLOSURE\)$') for e in cl_st), '(closure X) with argument on a callback type is rejected', rel, line_of(cl_st),
